@@ -72,8 +72,12 @@ impl TraceSlider {
     }
 
     pub(crate) fn set_position_and_len(&mut self, position: TracePos, subtrace_len: TraceLen) -> KeeperResult<()> {
-        // it's possible to set empty subtrace_len and inconsistent position
-        if subtrace_len != 0 && position + subtrace_len > self.trace.trace_states_count().into() {
+        // it's possible to set empty subtrace_len and inconsistent position;
+        // position + subtrace_len of crafted data may not fit into TracePos
+        let end_fits_trace = u32::from(position)
+            .checked_add(subtrace_len)
+            .map_or(false, |end_pos| end_pos <= self.trace.trace_states_count());
+        if subtrace_len != 0 && !end_fits_trace {
             return Err(SetSubtraceLenAndPosFailed {
                 requested_pos: position,
                 requested_subtrace_len: subtrace_len,
@@ -89,7 +93,8 @@ impl TraceSlider {
     }
 
     pub(crate) fn set_subtrace_len(&mut self, subtrace_len: TraceLen) -> KeeperResult<()> {
-        let trace_remainder: TraceLen = (TracePos::from(self.trace_len()) - self.position).into();
+        // an inconsistent position (see set_position_and_len) could be behind the trace end
+        let trace_remainder: TraceLen = self.trace_len().saturating_sub(self.position.into());
         if trace_remainder < subtrace_len {
             return Err(SetSubtraceLenFailed {
                 requested_subtrace_len: subtrace_len,
